@@ -36,6 +36,10 @@ def scenarios(thorough):
             continue
         for perms, umask in ((0, 0o022), (0o600, 0o077)) if not thorough else ((0, 0o022), (0, 0o077), (0o600, 0o022), (0o644, 0o077)):
             out.append(base_cfg(body=body, text_mode=text, dest_present=dp, overwrite=ow, perms=perms, umask=umask))
+    # the second save of a long-lived saver object (descriptors opened in between)
+    for body, text in (("three", False), ("big", True), ("one", False)):
+        out.append(base_cfg(body=body, text_mode=text, dest_present=True, warm_saver=True))
+        out.append(base_cfg(body=body, text_mode=text, dest_present=True, warm_saver=True, perms=0o600))
     # a body that raises must leave the destination untouched at every instant too
     for body, at in (("three", 0), ("three", 2), ("one", 1), ("big", 1)):
         for dp in (False, True):
